@@ -74,6 +74,7 @@ func slug(msg string) string {
 
 func c10Jobs(thorough bool) []json.RawMessage {
 	scs := []c10.Scenario{
+		{Name: "2x1-max2-nowait-closer", N: 2, M: 1, MaxConns: 2, Closer: true},
 		{Name: "2x1-max1-nowait", N: 2, M: 1, MaxConns: 1},
 		{Name: "2x1-max1-wait", N: 2, M: 1, MaxConns: 1, Wait: true},
 		{Name: "2x2-max1-wait", N: 2, M: 2, MaxConns: 1, Wait: true},
@@ -89,7 +90,11 @@ func c10Jobs(thorough bool) []json.RawMessage {
 		scs = append(scs, c10.Scenario{Name: "3x2-max2-wait", N: 3, M: 2, MaxConns: 2, Wait: true})
 	}
 	var out []json.RawMessage
+	only := os.Getenv("VERIF_C10_SCENARIO") // debugging aid: explore the scenarios whose name contains this text only
 	add := func(j c10.Job) {
+		if only != "" && !strings.Contains(j.Sc.Name, only) {
+			return
+		}
 		b, _ := json.Marshal(j)
 		out = append(out, b)
 	}
@@ -138,6 +143,15 @@ func c10Jobs(thorough bool) []json.RawMessage {
 		}
 		ok := make([]int, k)
 		add(c10.Job{Sc: sc, Plan: c10.Plan{Answers: ok}, Bound: bound})
+		if sc.Closer {
+			// the closer thread multiplies the schedules: only the fault-free plan and "ok + close" on either exchange
+			for i := 0; i < sc.N*sc.M; i++ {
+				p := append([]int{}, ok...)
+				p[i] = c10.AOkClose
+				add(c10.Job{Sc: sc, Plan: c10.Plan{Answers: p}, Bound: bound})
+			}
+			continue
+		}
 		// one fault anywhere
 		for i := 0; i < k; i++ {
 			kinds := []int{1, 2, 3, 4, 5, 6}
@@ -187,7 +201,9 @@ func c10Explore(raw json.RawMessage, deadline time.Time) jobResult {
 	res := jobResult{Job: raw}
 	seen := map[string]bool{}
 	var cur *c10World
-	st := verifrt.Explore(job.Bound, verifrt.Options{MaxTimeAdvances: 12}, func() (func(), func()) {
+	// the closer scenario is about a thread that works on the idle list after releasing the pool lock: there the
+	// release of the lock is a scheduling point too
+	st := verifrt.Explore(job.Bound, verifrt.Options{MaxTimeAdvances: 12, UnlockPoints: job.Sc.Closer}, func() (func(), func()) {
 		cur = c10.NewWorld(job)
 		return cur.Body(), cur.OnPoint
 	}, func(r *verifrt.Result, dev int) bool {
